@@ -1950,8 +1950,12 @@ XMLReader::xcodeMoreChars(          XMLCh* const            bufToFill
     XMLSize_t bytesEaten = 0;
     bool needMode = false;
 
-    while (!bytesEaten)
+    //  Go on until at least one character has come out: a transcoder that
+    //  keeps state (ICU) may eat the bytes of an incomplete sequence and
+    //  return no character yet, which is not the end of the input.
+    while (!charsDone)
     {
+        bytesEaten = 0;
         // If our raw buffer is low, then lets load up another batch of
         // raw bytes now.
         //
@@ -1997,7 +2001,10 @@ XMLReader::xcodeMoreChars(          XMLCh* const            bufToFill
         if (bytesEaten == 0)
             needMode = true;
         else
+        {
             fRawBufIndex += bytesEaten;
+            needMode = false;
+        }
     }
 
     return charsDone;
